@@ -106,4 +106,113 @@ def protoConcatM (l : List Str) : Str :=
   let ds := l.map devirt
   if ds.all DV.isA then .ascii (ds.flatMap DV.bytes) else .uni (ds.flatMap DV.units)
 
+/-! ### replace / replaceAll with a string pattern and a string replacement -/
+
+def isPrefixB : List UInt8 → List UInt8 → Bool
+  | [], _ => true
+  | _ :: _, [] => false
+  | a :: as, b :: bs => a == b && isPrefixB as bs
+
+/-- strings.Index(rest, pat) + offset, modelled by its specification (least matching position) -/
+def indexFromB (pat : List UInt8) : (rest : List UInt8) → (pos : Nat) → Option Nat
+  | [], pos => if pat.isEmpty then some pos else none
+  | c :: cs, pos => if isPrefixB pat (c :: cs) then some pos else indexFromB pat cs (pos + 1)
+
+/-- asciiString.index (string_ascii.go), unicodeString.index (string_unicode.go, with the past-the-end guard of
+0ea80f8), importedString.index; utf16Index is modelled by its specification (least matching position). none = -1 -/
+def indexM (s pat : Str) (start : Nat) : Option Nat :=
+  match devirt s, devirt pat with
+  | .a a, .a p => if start > a.length then none else indexFromB p (a.drop start) start
+  | .a _, .u _ => none
+  | .u u, p => if start > u.length then none else Spec.indexFrom p.units (u.drop start) start
+
+/-- writeSubstitution (builtin_regexp.go:1191) for a string pattern: numCaptures = 1, no named groups.
+`repl` = the units of replaceStr read with CharAt; every literal unit goes through `WriteRune(rune(c))`. -/
+def writeSubst (s : Str) (pos : Nat) (matched : Str) : List UInt16 → SB → SB
+  | [], b => b
+  | [c], b => b.writeRune c.toNat
+  | c :: ch :: rest, b =>
+    if c.toNat = 36 then
+      if ch.toNat = 36 then writeSubst s pos matched rest (b.writeRune 36)
+      else if ch.toNat = 96 then writeSubst s pos matched rest (b.writeString (substring s 0 pos))
+      else if ch.toNat = 39 then
+        writeSubst s pos matched rest
+          (if pos + len matched < len s then b.writeString (substring s (pos + len matched) (len s)) else b)
+      else if ch.toNat = 38 then writeSubst s pos matched rest (b.writeString matched)
+      else writeSubst s pos matched rest ((b.writeRune 36).writeRune ch.toNat)   -- `$<`, `$0`..`$9`, other: literal
+    else writeSubst s pos matched (ch :: rest) (b.writeRune c.toNat)
+
+/-- the `for _, item := range found` loop of Runtime.stringReplace (builtin_string.go:643-683), no callback -/
+def replaceGoM (s : Str) (plen : Nat) (repl : List UInt16) : List Nat → Nat → SB → SB × Nat
+  | [], last, b => (b, last)
+  | p :: ps, last, b =>
+    let b1 := if p ≠ last then b.writeString (substring s last p) else b
+    let b2 := writeSubst s p (substring s p (p + plen)) repl b1
+    replaceGoM s plen repl ps (p + plen) b2
+
+/-- Runtime.stringReplace for match positions `found` of a pattern of length `plen` -/
+def stringReplaceM (s : Str) (plen : Nat) (found : List Nat) (repl : Str) : Str :=
+  if found.isEmpty then touch s
+  else
+    let r := replaceGoM s plen (units repl) found 0 SB.empty
+    (if r.2 ≠ len s then r.1.writeString (substring s r.2 (len s)) else r.1).toStr
+
+/-- String.prototype.replace, string pattern (builtin_string.go:682) -/
+def replaceM (s pat repl : Str) : Str :=
+  match indexM s pat 0 with
+  | none => stringReplaceM s (len pat) [] repl
+  | some p => stringReplaceM s (len pat) [p] repl
+
+def foundAllM (s pat : Str) : Nat → Nat → List Nat
+  | 0, _ => []
+  | fuel + 1, pos =>
+    match indexM s pat pos with
+    | none => []
+    | some p => p :: foundAllM s pat fuel (p + max 1 (len pat))
+
+/-- String.prototype.replaceAll, string pattern (builtin_string.go:707); the loop runs at most len+1 times -/
+def replaceAllM (s pat repl : Str) : Str :=
+  stringReplaceM s (len pat) (foundAllM s pat (len s + 2) 0) repl
+
+/-! ### split (string separator, no limit) and Array.prototype.join -/
+
+/-- strings.SplitN(s, sep, -1) for a non-empty separator, modelled by its specification -/
+def splitRelB (sep : List UInt8) : Nat → List UInt8 → List (List UInt8)
+  | 0, rest => [rest]
+  | fuel + 1, rest =>
+    match indexFromB sep rest 0 with
+    | none => [rest]
+    | some idx => rest.take idx :: splitRelB sep fuel (rest.drop (idx + sep.length))
+
+/-- the `for ; limit > 0; limit--` loop of stringproto_split for a UTF-16 subject (builtin_string.go:885-911).
+`idx` = position of the next separator in `su`, or len(su) when there is none.  The chunk `su[:idx]` is stored as
+ASCII unless it has a unit >= 0x80 (= uniSubstring).  (fuel 0 is unreachable with the fuel used below.) -/
+def splitLoopM (ss : List UInt16) : Nat → List UInt16 → Nat → List Str
+  | 0, su, _ => [uniSubstring su 0 su.length]
+  | fuel + 1, su, idx =>
+    if idx = su.length then [uniSubstring su 0 idx]
+    else
+      let su' := su.drop (idx + ss.length)
+      uniSubstring su 0 idx :: splitLoopM ss fuel su' ((Spec.indexFrom ss su' 0).getD su'.length)
+
+/-- String.prototype.split(separator) (builtin_string.go:830), separator a string, no limit -/
+def splitM (s sep : Str) : List Str :=
+  match devirt s, devirt sep with
+  | .a sa, .a sepa =>
+    -- both ASCII: strings.SplitN; "" splits into bytes
+    (if sepa.isEmpty then sa.map (fun c => [c]) else splitRelB sepa (sa.length + 1) sa).map .ascii
+  | .a _, .u _ => [touch s]                      -- a Unicode separator never matches an ASCII string
+  | .u su, dsep =>
+    let ss := dsep.units
+    if ss.isEmpty then su.map (fun c => if nonAsciiU c then .uni [c] else .ascii [u2b c])
+    else match Spec.indexFrom ss su 0 with
+      | none => [touch s]                         -- shortcut: the subject itself
+      | some idx => splitLoopM ss (su.length + 1) su idx
+
+/-- Array.prototype.join over string elements (builtin_array.go:189) -/
+def joinM (ps : List Str) (sep : Str) : Str :=
+  match ps with
+  | [] => emptyStr
+  | p :: rest => ((rest.foldl (fun b q => (b.writeString sep).writeString q) (SB.empty.writeString p))).toStr
+
 end GojaModel.C06.Builtins
